@@ -32,6 +32,8 @@ type c03Case struct {
 	// at render time (Ed25519): its rendering fails before the first byte, after DATA was accepted.
 	Unsignable  int  `json:"unsignable,omitempty"`
 	DialAndSend bool `json:"dial_and_send"`
+	// NilBefore > 0: the slice handed to Send has a nil entry in front of message number NilBefore.
+	NilBefore int `json:"nil_before,omitempty"`
 	// Retry: after the call, the caller sends every message that was not delivered once more (faults
 	// gone, a fault-free server): what is accepted then is again a complete rendering.
 	Retry bool `json:"retry,omitempty"`
@@ -162,15 +164,28 @@ func c03Run(c c03Case) []*core.Violation {
 			}
 		}
 	}
+	// the list handed to Send may carry nil entries (a caller who builds the batch from a slice with gaps):
+	// they are skipped, everything else is as if they were not there
+	sendList := msgs
+	if c.NilBefore > 0 {
+		sendList = nil
+		for i, m := range msgs {
+			if i+1 == c.NilBefore {
+				sendList = append(sendList, nil)
+			}
+			sendList = append(sendList, m)
+		}
+		rec.Class("batch-with-a-nil-entry")
+	}
 	res := watchdog(20*time.Second, d, func() error {
 		if c.DialAndSend {
-			sendErr = cl.DialAndSendWithContext(ctx, msgs...)
+			sendErr = cl.DialAndSendWithContext(ctx, sendList...)
 			return nil
 		}
 		if dialErr = cl.DialWithContext(context.Background()); dialErr != nil {
 			return nil
 		}
-		sendErr = cl.Send(msgs...)
+		sendErr = cl.Send(sendList...)
 		_ = cl.Close()
 		return nil
 	})
@@ -369,6 +384,9 @@ func c03Gen(t *rapid.T) c03Case {
 	}
 	c := c03Case{DialAndSend: rapid.Bool().Draw(t, "dialandsend"), Retry: rapid.Bool().Draw(t, "retry")}
 	n := rapid.IntRange(1, 4).Draw(t, "nmsgs")
+	if rapid.IntRange(0, 5).Draw(t, "nilentry") == 0 {
+		c.NilBefore = rapid.IntRange(1, n).Draw(t, "nilbefore")
+	}
 	for i := 0; i < n; i++ {
 		spec := gen.Program(t, o)
 		// 8bit parts travel unencoded: keep CRLF line breaks so that only the final-CRLF normalisation applies
